@@ -347,7 +347,11 @@ func (w *World) fixedPoint() {
 		need4, need6 := w.cfg.v4(), w.cfg.v6()
 		if (need4 && len(v4) != 1) || (need6 && len(v6) != 1) {
 			if w.capacityLeft(node, p) {
-				w.run.Violate("C08", "convergence", "eligible-pod-without-address", "pod %s exists but is bound to %v/%v, %d fake seconds into a fault-free settle phase with capacity left", p.spec.Name, v4, v6, w.sc.SettleS)
+				ptag := ""
+				if w.pinnedPod(node) == p.spec.Name {
+					ptag = "@pod-pinned-to-interface-without-idle-address"
+				}
+				w.run.Violate("C08", "convergence", "eligible-pod-without-address"+ptag, "pod %s exists but is bound to %v/%v, %d fake seconds into a fault-free settle phase with capacity left", p.spec.Name, v4, v6, w.sc.SettleS)
 			}
 		}
 	}
@@ -383,7 +387,54 @@ func (w *World) fixedPoint() {
 
 // knownCycleCause names the recorded defect (known_findings.json) whose precondition the record
 // meets, so that only a failure to converge with that specific cause is attributed to it.
+// pinnedPod: a dual-stack pod that holds one family only (taken over from a single-stack node, or
+// the other address was lost) can only be completed on the interface of the address it holds.
+// K6: the controller adds addresses wherever its walk over the interfaces puts them, not on that
+// interface; if that interface has no idle address of the missing family the pod waits for ever
+// while addresses are assigned elsewhere and trimmed again.
+func (w *World) pinnedPod(node *networkv1beta1.Node) string {
+	if !w.cfg.v4() || !w.cfg.v6() {
+		return ""
+	}
+	names := []string{}
+	for _, p := range w.pods {
+		if p.exists && !p.exited {
+			names = append(names, p.spec.Name)
+		}
+	}
+	sort.Strings(names)
+	for _, name := range names {
+		podID := ns + "/" + name
+		for _, ni := range node.Status.NetworkInterfaces {
+			has4, has6, idle4, idle6 := false, false, false, false
+			for _, ip := range ni.IPv4 {
+				if ip != nil && ip.PodID == podID {
+					has4 = true
+				}
+				if ip != nil && ip.PodID == "" && ip.Status == networkv1beta1.IPStatusValid {
+					idle4 = true
+				}
+			}
+			for _, ip := range ni.IPv6 {
+				if ip != nil && ip.PodID == podID {
+					has6 = true
+				}
+				if ip != nil && ip.PodID == "" && ip.Status == networkv1beta1.IPStatusValid {
+					idle6 = true
+				}
+			}
+			if (has4 && !has6 && !idle6) || (has6 && !has4 && !idle4) {
+				return name
+			}
+		}
+	}
+	return ""
+}
+
 func (w *World) knownCycleCause(node *networkv1beta1.Node) string {
+	if w.pinnedPod(node) != "" {
+		return "@pod-pinned-to-interface-without-idle-address"
+	}
 	// K3b: trimming counts the idle addresses of RDMA interfaces, refilling (for ordinary pods)
 	// does not; with more idle RDMA addresses than the band is wide there is no pool size at
 	// which both are satisfied.
